@@ -1341,10 +1341,10 @@ fn macro_arm<T: Elem>(arm: i128, x: usize, y: usize, rows: &[Vec<i128>]) -> Opti
 }
 
 /// runs one history; `lines` are the `O` lines between `H` and `E`
-pub fn run_history<T: Elem>(id: &str, ops: &[WireOp], ctx: &Ctx, out: &mut String) {
+pub fn run_history<T: Elem>(id: &str, ops: &[WireOp], ctx: &Ctx, out: &mut dyn std::io::Write) {
     reset_ledger();
     let mut pool: Pool<T> = (0..4).map(|_| None).collect();
-    out.push_str(&format!("H {id}\n"));
+    writeln!(out, "H {id}").unwrap();
     for op in ops {
         if op.code == 900 {
             // X fault k mask : arm the injector for the next operation
@@ -1377,21 +1377,23 @@ pub fn run_history<T: Elem>(id: &str, ops: &[WireOp], ctx: &Ctx, out: &mut Strin
             side.push(format!("flag:{}", f.replace(' ', "_")));
         }
         let side = if side.is_empty() { "ok".to_string() } else { side.join("|") };
-        out.push_str(&format!(
-            "{obs} ;; {} ;; {side} cl={} dr={} ticks={ticks} fired={}\n",
+        writeln!(
+            out,
+            "{obs} ;; {} ;; {side} cl={} dr={} ticks={ticks} fired={}",
             show_pool(&pool),
             CLONED.swap(0, SeqCst),
             DROPPED.swap(0, SeqCst),
             fired as u8
-        ));
+        )
+        .unwrap();
     }
     // dropping the pool must release every element exactly once
     drop(pool);
     let live = live_count();
     let flags = take_flags();
     if live != 0 || !flags.is_empty() {
-        out.push_str(&format!("E live={live} flags={}\n", flags.join("|").replace(' ', "_")));
+        writeln!(out, "E live={live} flags={}", flags.join("|").replace(' ', "_")).unwrap();
     } else {
-        out.push_str("E\n");
+        writeln!(out, "E").unwrap();
     }
 }
